@@ -40,7 +40,7 @@ BATCH = [1, 2, 7, 1000]
 def plan(tier: str, seed: int) -> list[dict]:
     decades = list(range(-6, 5)) if tier == "quick" else list(range(-6, 7))
     cases = []
-    reps = 1 if tier == "quick" else 4
+    reps = 1 if tier == "quick" else 60
     for rep in range(reps):
         for fam in ("boost", "boostz", "chain"):
             for dec, d in itertools.product(decades, DIRS):
